@@ -10,7 +10,7 @@ for id in $ids; do
   if ! patch -p1 -s --no-backup-if-mismatch -d $tmp -i /verif/seeded/$id/patch.diff >/dev/null 2>&1; then
     echo "$id: patch does not apply"; rm -rf $tmp; continue
   fi
-  out=$(RSOME_REPO=$tmp ./check --all 2>&1)
+  out=$(RSX_NO_EVIDENCE=1 RSOME_REPO=$tmp ./check --all 2>&1)
   v=$(echo "$out" | grep -E "^VIOLATION" | sed -E 's/.*property=(C[0-9]+).*/\1/' | sort -u | tr '\n' ' ')
   e=$(echo "$out" | grep -E "^ANALYSIS-ERROR" | sed -E 's/.*property=(C[0-9]+).*/\1/' | sort -u | tr '\n' ' ')
   r=$(echo "$out" | grep -E "^  R[0-9]+" | awk '{print $1}' | sort -u | tr '\n' ' ')
